@@ -87,8 +87,10 @@ func showPassword(p *spg.Password, err error) string {
 		return fmt.Sprintf("NIL-PASSWORD-WITHOUT-ERROR consumed=%d", consumed())
 	}
 	ts := p.Tokens()
-	return fmt.Sprintf("ok %s str=%s atoms=%s seps=%s ent=%s consumed=%d", showTokens(ts), hxs(p.String()),
-		hxs(strings.Join(ts.Atoms(), "\x00")), hxs(strings.Join(ts.Separators(), "\x00")), f32(p.Entropy), consumed())
+	c := consumed() // before the round trip, which draws nothing but keep it obvious
+	return fmt.Sprintf("ok %s str=%s atoms=%s seps=%s ent=%s consumed=%d %s", showTokens(ts), hxs(p.String()),
+		hxs(strings.Join(ts.Atoms(), "\x00")), hxs(strings.Join(ts.Separators(), "\x00")), f32(p.Entropy), c,
+		roundTrip(ts, p.String(), p.Entropy))
 }
 
 func init() {
